@@ -253,6 +253,18 @@ func (vc *VC) doCall(c *ssa.CallCommon, v ssa.Value, st *State, pos token.Pos) *
 	if fn != nil && vc.isLeafGetter(fn) && vc.inlineDepth < 3 {
 		return vc.inlineCall(fn, args, v, st)
 	}
+	// a function of this module without a contract: modular verification does not look inside. The call
+	// is recorded (trivially discharged) so that the baseline knows which such calls existed; a new one
+	// in a function under contract is reported by the check (its effects are outside the proof)
+	if fn != nil && fn.Pkg != nil && strings.HasPrefix(fn.Pkg.Pkg.Path(), vc.prog.module) && vc.inlineDepth == 0 && vc.fc != nil {
+		root := fn
+		for root.Parent() != nil {
+			root = root.Parent()
+		}
+		if root != vc.fn && fn.Parent() == nil {
+			vc.oblige("unverified-callee", funcRelName(fn), "true", pos)
+		}
+	}
 	// unknown callee: everything may change
 	if fn == nil && !c.IsInvoke() {
 		vc.assumeNote("dynamic call in " + vc.name + ": all heaps havocked")
@@ -284,7 +296,7 @@ func (vc *VC) havocResult(v ssa.Value, c *ssa.CallCommon, st *State) *TV {
 // specialCall: hooks for calls with engine-native semantics.
 func (vc *VC) specialCall(key string, c *ssa.CallCommon, args []TV, v ssa.Value, st *State, pos token.Pos) *TV {
 	// mutexes taken and released by the function (only tracked where the contract asks for it)
-	if vc.fc != nil && vc.fc.Flags["no-blocking-under-lock"] && len(args) > 0 {
+	if vc.fc != nil && (vc.fc.Flags["no-blocking-under-lock"] || vc.fc.Flags["track-locks"]) && len(args) > 0 {
 		B := types.Typ[types.Bool]
 		switch key {
 		case "(*sync.Mutex).Lock", "(*sync.RWMutex).Lock", "(*sync.RWMutex).RLock":
@@ -889,6 +901,22 @@ func (vc *VC) builtin(b *ssa.Builtin, c *ssa.CallCommon, v ssa.Value, st *State,
 			if fv, ok := ld.X.(*ssa.FreeVar); ok && vc.loopContaining(vc.cur) == nil && vc.localChanSingleClose(fv, c) {
 				vc.assumeNote("a local channel captured by closures and closed by a single statement is not closed by anyone else")
 				vc.assume(vc.guard(), eq(vc.heapRead(st, "#closed", B, ch.S), vc.heapRead(vc.entrySt, "#closed", B, ch.S)))
+			}
+		}
+		// closing the completion latch of a request is what completes it: the token goes with it
+		if vc.tokensOn() {
+			if ld, ok := c.Args[0].(*ssa.UnOp); ok && ld.Op == token.MUL {
+				if fa, ok := ld.X.(*ssa.FieldAddr); ok {
+					pt := fa.X.Type().Underlying().(*types.Pointer).Elem()
+					if nt, ok := pt.(*types.Named); ok {
+						name := nt.Obj().Name() + "." + pt.Underlying().(*types.Struct).Field(fa.Field).Name()
+						for _, tl := range vc.prog.cs.TokLatches {
+							if tl == name {
+								vc.tokConsume(st, vc.val(fa.X).S, "true", "close of the completion latch "+name, pos)
+							}
+						}
+					}
+				}
 			}
 		}
 		vc.oblige("close-nil-chan", "", not(eq(ch.S, "lnil")), pos)
